@@ -890,7 +890,8 @@ _RAW = ["Language.toRaw", "Language.toRawRef", "Script.toRaw", "Region.toRaw", "
         "Region.fromRaw", "Variant.fromRaw", "LangId.fromRawParts", "Locale.fromRawParts"]
 # the six proc macros (tr_macro.rs): parse at build time, `quote!` an expression of UL.MTok, evaluated by Model/MacroSem.lean
 _SERDE = ["Serde.serialize", "Serde.deserialize"]
-_MACROS = ["Macros.lang", "Macros.script", "Macros.region", "Macros.variant", "Macros.langid", "Macros.locale"]
+_MACROS = ["Macros.lang", "Macros.script", "Macros.region", "Macros.variant", "Macros.langid", "Macros.locale", "Macros.langids", "Macros.langidSlice",
+           "Macros.locales"]
 SRC_TIE = {"C01": _SUBTAGS + _EXT + _PARSE_LI + _PARSE_LOC + _OPS + _LIKELY + _GLUE + _RAW,
            "C06": _LIKELY + _RAW, "C07": _LIKELY + _RAW, "C08": _LIKELY + _RAW, "C14": _LIKELY + _RAW, "C20": _LIKELY + _RAW, "C18": _RAW,
            "C16": _SUBTAGS + _PARSE_LI + _PARSE_LOC + _FMT + _RAW + ["Language.fromStr", "Script.fromStr", "Region.fromStr", "Variant.fromStr", "LangId.fromStr", "Locale.fromStr", "ExtMap.fromStr", "LangId.intoParts", "Locale.intoParts"] + _MACROS, "C02": _SUBTAGS + _PARSE_LI, "C03": _SUBTAGS + _EXT + _PARSE_LI + _PARSE_LOC,
